@@ -154,6 +154,9 @@ class Harness(object):
                 except mcserver.ScriptTimeout:
                     pass
                 io.results.put(ok)
+            elif cmd[0] == 'kick':
+                did, dp = codec.encode('play_disconnect', {'reason': '"kick"'})
+                io.send_frame(did, dp)
             elif cmd[0] == 'ka-noecho':
                 kid, kp = codec.encode('cb_keep_alive', {'id': cmd[1]})
                 io.send_frame(kid, kp)
@@ -1113,6 +1116,101 @@ def stale_read_case(run, rng, pv, idx):
             pc.safe_disconnect(conn)
 
 
+def two_connection_cases(run, rng, pv, idx):
+    """Two Connection objects in one process, each with its own server
+    session.  (a) Both are kicked at the same moment and each one's disconnect
+    listener also calls disconnect() on the *other* object (a relay tearing
+    down both legs): both networking threads must end.  (b) The exit callback
+    of one hands the reconnect to a supervisor thread and waits for it: the
+    supervisor must be able to use the connection while the callback runs."""
+    from minecraft.networking.packets import clientbound
+    from ..probes import baton as _baton
+    variant = ('cross-disconnect', 'exit-callback-delegates')[idx % 2]
+    H = Harness(pv)
+    recs = [pc.Recorder(), pc.Recorder()]
+    conns = []
+    w = {'pv': pv, 'two_connections': variant}
+    try:
+        K = pc.monitored_connection_class()
+        barrier = threading.Barrier(2)
+        delegated = []
+
+        def make(i):
+            def handle_exit():
+                recs[i].handle_exit()
+                if variant != 'exit-callback-delegates' or i != 0 or delegated:
+                    return
+                done_ev = threading.Event()
+
+                def supervisor():
+                    try:
+                        H.next_mode = 'play-disconnect'
+                        conns[0].connect()
+                        delegated.append('ok')
+                    except Exception as e:
+                        delegated.append(repr(e))
+                    done_ev.set()
+                threading.Thread(target=supervisor, name='supervisor',
+                                 daemon=True).start()
+                if not done_ev.wait(8.0):
+                    owner = getattr(conns[0]._write_lock, 'owner', None)
+                    delegated.append('blocked; write lock owned by %s' % (
+                        'the networking thread that runs the exit callback'
+                        if owner == threading.get_ident() else owner))
+            c = K('127.0.0.1', H.server.port, username='vfuser%d' % i,
+                  allowed_versions={pv},
+                  handle_exception=recs[i].handle_exception,
+                  handle_exit=handle_exit)
+            c.vf_log = recs[i].log
+            c._write_lock = _baton.LockProxy(_baton.NullScheduler())
+            return c
+        conns.extend([make(0), make(1)])
+        if variant == 'cross-disconnect':
+            for i in (0, 1):
+                def on_kick(_p, i=i):
+                    try:
+                        barrier.wait(3.0)
+                    except threading.BrokenBarrierError:
+                        pass
+                    conns[1 - i].disconnect()
+                conns[i].register_packet_listener(
+                    on_kick, clientbound.play.DisconnectPacket)
+        H.next_mode = 'hold'
+        for c in conns:
+            c.connect()
+        if not pc.wait_for(lambda: len(H.ios) >= 2 and all(
+                getattr(io, 'phase', '') == 'play' for io in H.ios[:2]), 10.0):
+            return 'two sessions never reached play'
+        if variant == 'cross-disconnect':
+            for io in H.ios[:2]:
+                io.cmds.put(('kick',))
+        else:
+            H.ios[0].cmds.put(('kick',))
+        ok = all(pc.wait_idle(c, 12.0) for c in conns[:1]) and (
+            variant != 'cross-disconnect' or pc.wait_idle(conns[1], 12.0))
+        run.count('two_connection_cases')
+        run.seen('two_connection_variants', variant)
+        if variant == 'cross-disconnect' and not ok:
+            run.violation('disconnect/cross-connection-deadlock', 'two '
+                          'connections whose listeners disconnect each other '
+                          'at the same time never came to rest', dict(
+                              w, threads=pc.dump_threads()[-1500:]))
+            return None
+        if variant == 'exit-callback-delegates':
+            if not delegated or delegated[0] != 'ok' or not ok:
+                run.violation('reconnect/exit-callback-cannot-delegate', 'an '
+                              'exit callback that hands the reconnect to '
+                              'another thread and waits for it never sees it '
+                              'finish', dict(w, detail=delegated[:2],
+                                             idle=ok))
+                return None
+        return None
+    finally:
+        H.stop()
+        for c in conns:
+            pc.safe_disconnect(c)
+
+
 def stress_case(run, rng, pv, idx):
     """Two user threads issue random calls concurrently."""
     from minecraft.exceptions import InvalidState
@@ -1326,6 +1424,18 @@ def run(run):
         run.case(('check-vs-lock', i))
         if err:
             run.inconclusive_because('check-vs-lock %d: %s' % (i, err))
+    for i in range(40 if thorough else 8):
+        if not run.mine(i):
+            continue
+        err = None
+        for attempt in range(2):
+            err = two_connection_cases(run, rng, rng.choice((757, 340)), i)
+            if err is None:
+                break
+        run.case(('two-connections', i))
+        if err:
+            run.inconclusive_because('two connections %d: %s' % (i, err))
+    run.require('two_connection_variants', 2)
     for i in range(1600 if thorough else 32):
         if not run.mine(i):
             continue
